@@ -20,6 +20,9 @@ func propC06(c *Ctx) {
 	c.ruleNondetSources()
 	c.ruleSequential()
 	c.ruleGlobalState("C06-GLOBAL-STATE")
+	// the input of a build is the file object the caller hands in: a build that rewrites its bytes in place makes
+	// the next build of the same object start from other input
+	c.ruleNormalisers()
 }
 
 // mapRangeExceptions: range-over-map loops that the classifier cannot discharge although reading shows
